@@ -24,9 +24,13 @@ def configs(tier):
     pairs = [["sock", "pipeR"], ["lst", "pkt"], ["reg", "sock"], ["mcp", "pipeW"], ["sock", "sock"]]
     if not q:
         pairs += [["pipeR", "lst"], ["pkt", "mcp"], ["reg", "pipeW"], ["sock", "lst"], ["pkt", "sock"]]
+    def bounds(p):
+        # two full-duplex objects make the largest graph: one operation less in the quick tier
+        small = q and p == ["sock", "sock"]
+        return dict(MaxOps=(4 if small else 5) if q else 6, MaxCmds=(8 if small else 9) if q else 11)
     return [dict(name="chains over %s+%s" % tuple(p), sample=n,
                  over=dict(Class="chain", Kinds=p, Cmds={"read", "write"}, Envs={"send"}, MaxData=3,
-                           MaxOps=5 if q else 6, MaxCmds=9 if q else 11, HBudget=1, MaxDrain=3))
+                           HBudget=1, MaxDrain=3, **bounds(p)))
             for p in pairs]
 
 
